@@ -22,6 +22,7 @@ class Check:
         self.not_decided = ''
         self.level = 'other'
         self.obligations = None
+        self.selftest = None
         try:
             self.known = [k for k in json.load(open(KNOWN))['findings']]
         except FileNotFoundError:
@@ -94,6 +95,8 @@ class Check:
             analysis_incomplete=self.broken,
             notes=self.notes,
         )
+        if self.selftest is not None:
+            cov['self_test'] = self.selftest
         if self.obligations is not None:
             ob, dis, cmd, tb = self.obligations
             cov.update(obligations=ob, discharged=dis, checker_cmd=cmd, trusted_base=tb)
@@ -101,7 +104,7 @@ class Check:
                   assumptions=self.assumptions or ['clang 14 front end sees the same program as the build for this config.h', 'mem2reg preserves semantics'],
                   wall_s=round(time.time() - self.t0, 3), violations=len(viol_new))
         os.makedirs(os.path.join(VERIF, 'evidence'), exist_ok=True)
-        if self.replay is None:
+        if self.replay is None and not os.environ.get('PXV_NO_EVIDENCE'):
             with open(os.path.join(VERIF, 'evidence', self.pid + '.json'), 'w') as f:
                 json.dump(ev, f, indent=1, default=str)
         for rid in self.order:
@@ -111,9 +114,10 @@ class Check:
             print('KNOWN-FINDING: property=%s %s [%s in %s: %s]' % (self.pid, k['what'], v['rule'], v['function'], v['construct']))
         rc = 0
         if viol_new:
-            os.makedirs(os.path.join(VERIF, 'replay', self.pid), exist_ok=True)
+            rdir = os.path.join(VERIF, 'replay', self.pid) if not os.environ.get('PXV_NO_EVIDENCE') else os.path.join('/tmp', 'pxv-replay-%d' % os.getpid(), self.pid)
+            os.makedirs(rdir, exist_ok=True)
             for v, _ in viol_new:
-                p = os.path.join(VERIF, 'replay', self.pid, '%s-%s.json' % (v['rule'], _fp([v['function'], v['construct']])))
+                p = os.path.join(rdir, '%s-%s.json' % (v['rule'], _fp([v['function'], v['construct']])))
                 with open(p, 'w') as f:
                     json.dump(dict(property=self.pid, **v), f, indent=1, default=str)
                 print('  %s: %s in %s%s: %s' % (v['rule'], v['construct'], v['function'], ' (' + v['loc'] + ')' if v['loc'] else '', v['what']))
